@@ -8,7 +8,7 @@
    of getaddrinfo/socket/setsockopt/wrap_socket/settimeout/connect/sendall/close (script_exc). *)
 From Coq Require Import ZArith List Bool.
 From Coq Require Import String.
-From PM Require Import Lib.Py Model.World Model.Readers Model.Client Spec.Lifecycle Proofs.Hoare Proofs.C06Proof Gen.Wrappers.
+From PM Require Import Lib.Py Model.World Model.Readers Model.Client Spec.Lifecycle Proofs.Hoare Proofs.C06Proof Gen.Wrappers Gen.Handlers.
 Import ListNotations.
 Open Scope Z_scope.
 
@@ -81,3 +81,10 @@ Theorem c06_stack_timeouts :
   In ("connect_timeout", "connect_timeout")%string hash_default_kwargs /\ In ("timeout", "timeout")%string hash_default_kwargs.
 Proof. repeat split; cbn; tauto. Qed.
 Print Assumptions c06_stack_timeouts.
+
+(* "whatever failures occur": the cleanup handlers of the three exchange paths catch EVERY exception class (read from base.py on
+   every run, Gen/Handlers.v), so the c06_failure_closes_* theorems apply to whatever a socket call raises - an ordinary error or an
+   interruption *)
+Theorem c06_src_handlers : src_h_fetch = BaseException /\ src_h_store = BaseException /\ src_h_misc = BaseException.
+Proof. repeat split; reflexivity. Qed.
+Print Assumptions c06_src_handlers.
